@@ -79,7 +79,9 @@ def replay(ob):
     m_ = ob.get('model') or {}
     mode, kind = rp['mode'], rp['shape_kind']
     cands = [(int(m_.get('n', 4)), int(m_.get('m', 7)), int(m_.get('off', 1)))]
-    for n in (1, 2, 3, 4, 5):
+    if kind == 'same':
+        cands = [(cands[0][0], cands[0][0], 0)] + [(n, n, 0) for n in (1, 2, 3, 5)]
+    for n in ((1, 2, 3, 4, 5) if kind != 'same' else ()):
         for d in (1, 2, 3):
             for off in range(0, d + 1):
                 cands.append((n, n + d, off) if kind == 'grow' else (n + d, n, off))
